@@ -59,8 +59,13 @@ def _reviewed_form(f, c):
             while b["k"] == "block" and len(b["stmts"]) == 1 and b["stmts"][0]["k"] == "expr":
                 b = b["stmts"][0]["e"]
             # the enclosing closure destructures the interval: |[lo, hi]|
-            enc = [x for x in walk(f.body) if x["k"] == "closure" and any(y is m for y in walk(x["body"])) and x["params"] and x["params"][0]["k"] in ("slice", "array")]
-            his = [e["params"][0]["elems"][-1].get("name") for e in enc if e["params"][0].get("elems")]
+            def unref(p_):  # `|&[lo, hi]|` is `|[lo, hi]|` on a copied interval
+                while p_["k"] == "ref":
+                    p_ = p_["pat"]
+                return p_
+
+            enc = [x for x in walk(f.body) if x["k"] == "closure" and any(y is m for y in walk(x["body"])) and x["params"] and unref(x["params"][0])["k"] in ("slice", "array")]
+            his = [unref(e["params"][0])["elems"][-1].get("name") for e in enc if unref(e["params"][0]).get("elems")]
             d = clo["params"][0]["name"]
             t = show(b, 0).replace(" ", "").replace("&", "").replace("*", "")
             if not his or t not in ("%s<=%s" % (d, his[-1]), "%s>=%s" % (his[-1], d)):
